@@ -294,11 +294,13 @@ def group_form(repo, fn):
         raise AnalysisError(f"{clo.qualname}: expected a single `return f(...)`")
     call = rets[0].value
     rec["call"] = call
-    rec["data_arg"] = norm(call.args[0]) if call.args else None
-    rec["group_arg"] = norm(call.args[1]) if len(call.args) > 1 else None
-    rec["extra_args"] = [norm(a) for a in call.args[2:]]
+    from .forms import expand as _expand_af
+    _x = lambda e: norm(_expand_af(clo, e, call))
+    rec["data_arg"] = _x(call.args[0]) if call.args else None
+    rec["group_arg"] = _x(call.args[1]) if len(call.args) > 1 else None
+    rec["extra_args"] = [_x(a) for a in call.args[2:]]
     dn = kw(call, "drop_na")
-    rec["drop_na"] = norm(dn) if dn is not None else None
+    rec["drop_na"] = _x(dn) if dn is not None else None
     # which function is bound in generic(...)?
     bound = []
     from .facts import facts_at as _facts_at
